@@ -14,7 +14,7 @@ MANIFEST = {
     "engine": "qv-native+qv-gen",
     "category": "proof",
     "technique": "contracts on SigmaX/Y/Z.apply, NeighbourInteraction.apply, flip_spin, to_pm1 with the importance-sampling accessors stubbed by opaque specs; lemma sum_sigma p(sigma) apply(sigma) == tr(rho O) over symbolic states; obligations by normal form and z3",
-    "text": "For X and Y the real apply is executed with importance_sampling_numerator/denominator replaced by opaque contract values (pure: psi(sigma'), psi(sigma); mixed: rho(sigma',sigma), [p(sigma),0]) and must equal Re sum_sigma' O[sigma,sigma'] w(sigma',sigma) for the dense operator O = (1/n) sum_i P_i built from Pauli matrices by the Kronecker definition; Z and the neighbour ZZ interaction (open / periodic, c = 1..n) do not touch the state and are decided exhaustively over all basis states against the diagonal of the dense operator. The unbiasedness lemma is discharged for arbitrary symbolic psi / rho, and end to end on the three real state types with symbolic parameters for small n. One real number per row and an unchanged sample array are obligations of every apply. Additionally (front end G) SigmaZ.apply (plain and absolute) equals the site mean of the Z eigenvalues for every chain length and batch size.",
+    "text": "For X and Y the real apply is executed with importance_sampling_numerator/denominator replaced by opaque contract values (pure: psi(sigma'), psi(sigma); mixed: rho(sigma',sigma), [p(sigma),0]) and must equal Re sum_sigma' O[sigma,sigma'] w(sigma',sigma) for the dense operator O = (1/n) sum_i P_i built from Pauli matrices by the Kronecker definition; Z and the neighbour ZZ interaction (open / periodic, c = 1..n) do not touch the state and are decided exhaustively over all basis states against the diagonal of the dense operator. The unbiasedness lemma is discharged for arbitrary symbolic psi / rho, and end to end on the three real state types with symbolic parameters for small n. One real number per row and an unchanged sample array are obligations of every apply. Additionally (front end G) SigmaZ.apply (plain and absolute) equals the site mean of the Z eigenvalues, and SigmaX / SigmaY.apply on positive and complex wavefunctions equal (1/n) times the sum over sites of Re(<flipped|psi> coefficient / psi(sigma)), for every chain length and batch size: the loop over the sites is cut at a sidecar loop contract (numer_sum holds the terms of the sites before i) proved on entry, preserved by the real body and used at exit.",
     "note": "floats as reals; psi(sigma) != 0 (division precondition); shapes enumerated (quick n<=3 stubbed, n<=2 end-to-end; thorough n<=5 / n<=3); values unbounded; the shape-generic part (front end G) holds for all sizes and values, equalities decided by tensor-algebra normal form (sound, incomplete: a miss is undecided, never a violation without a replayed witness)",
 }
 EXPLANATION = "dense operators from Pauli matrices via Kronecker definition with site 0 leftmost; full basis as the batch"
